@@ -27,7 +27,9 @@ func init() {
 		}
 		parts := make([]string, 0, hi-lo+1)
 		for v := lo; v <= hi; v++ {
-			parts = append(parts, hex.EncodeToString([]byte(f(v))))
+			v := v
+			// a String method that panics is a result for that value
+			parts = append(parts, hex.EncodeToString([]byte(guarded(func() string { return f(v) }))))
 		}
 		return strings.Join(parts, ",")
 	}
